@@ -20,7 +20,7 @@ import (
 // length, executed on the instrumented build so that "wait for the timeout" is a virtual-time event.
 
 type c06Op struct {
-	Kind string // set-valid set-invalid set-dry set-deverr confirm cancel wait
+	Kind string // set-valid set-warn (valid, with a validation warning) set-invalid set-dry set-deverr confirm cancel wait
 	ID   string
 }
 
@@ -33,7 +33,7 @@ func (o c06Op) String() string {
 
 func c06Alphabet() []c06Op {
 	var ops []c06Op
-	for _, k := range []string{"set-valid", "set-invalid", "set-dry", "set-deverr"} {
+	for _, k := range []string{"set-valid", "set-warn", "set-invalid", "set-dry", "set-deverr"} {
 		for _, id := range []string{"t1", "t2"} {
 			ops = append(ops, c06Op{k, id})
 		}
@@ -73,6 +73,8 @@ func c06Run(u *Universe, wc *WorkerCache, seq []c06Op) (viol []string, outcome s
 			fr := []string{"fa", "fb"}[flip%2]
 			dry := false
 			switch kind {
+			case "set-warn":
+				fr = []string{"fw", "fw2"}[flip%2]
 			case "set-invalid":
 				fr = "iv-length"
 			case "set-dry":
@@ -107,7 +109,7 @@ func c06Run(u *Universe, wc *WorkerCache, seq []c06Op) (viol []string, outcome s
 			devBefore := w.Dev.NumCalls()
 			wantDev := 0
 			switch op.Kind {
-			case "set-valid", "set-invalid", "set-dry", "set-deverr":
+			case "set-valid", "set-warn", "set-invalid", "set-dry", "set-deverr":
 				rsp, err, finished := doSet(op.ID, op.Kind)
 				if !finished {
 					add("set-never-returns", op, "TransactionSet did not return after its context was cancelled")
@@ -127,7 +129,7 @@ func c06Run(u *Universe, wc *WorkerCache, seq []c06Op) (viol []string, outcome s
 					break
 				}
 				switch op.Kind {
-				case "set-valid":
+				case "set-valid", "set-warn":
 					if err != nil || hasErrs {
 						add("valid-set-refused", op, fmt.Sprintf("err=%v intentErrors=%v", err, hasErrs))
 					} else {
